@@ -283,6 +283,111 @@ class VDict(V):
         self.kt, self.vt, self.has, self.val = kt, vt, has, val
 
 
+KeyS = z3.DeclareSort("Key")
+STR_KEY = z3.Function("key_of_str", StrS, KeyS)
+
+
+class VKey(V):
+    """an opaque hashable value used as a dict key (tuples of labels, linearizations, ...)"""
+    def __init__(self, t):
+        self.t = t
+
+    def __repr__(self):
+        return "VKey(%s)" % self.t
+
+
+def key_term(k):
+    if isinstance(k, VKey):
+        return k.t
+    if isinstance(k, str):
+        return STR_KEY(z3.StringVal(k))
+    if isinstance(k, VStr):
+        return STR_KEY(k.t)
+    raise Unsupported("dict key %r" % (k,))
+
+
+def _nested_sort(depth, leaf):
+    srt = leaf
+    for _ in range(depth):
+        srt = z3.ArraySort(KeyS, srt)
+    return srt
+
+
+def _sel(arr, keys):
+    for k in keys:
+        arr = z3.Select(arr, k)
+    return arr
+
+
+def _upd(arr, keys, v):
+    if not keys:
+        return v
+    return z3.Store(arr, keys[0], _upd(z3.Select(arr, keys[0]), keys[1:], v))
+
+
+class VMap(V):
+    """nested dict of fixed depth D with opaque keys and integer leaves (e.g. grammar[func][lin][vert] -> count):
+    pres[l] : Key^(l+1) -> Bool (is the key path present at level l), val : Key^D -> Int; a view has a prefix"""
+    def __init__(self, depth, pres, val, prefix=()):
+        self.depth, self.pres, self.val, self.prefix = depth, list(pres), val, tuple(prefix)
+
+    @staticmethod
+    def fresh(depth, name):
+        pres = [z3.Const(fresh_name("%s_pres%d" % (name, l)), _nested_sort(l + 1, BoolS)) for l in range(depth)]
+        val = z3.Const(fresh_name(name + "_val"), _nested_sort(depth, IntS))
+        return VMap(depth, pres, val)
+
+    def level(self):
+        return len(self.prefix)
+
+    def has(self, k):
+        return VBool(_sel(self.pres[self.level()], list(self.prefix) + [key_term(k)]))
+
+    def path_present(self):
+        """all prefixes of this view are present"""
+        conds = [_sel(self.pres[l], list(self.prefix[:l + 1])) for l in range(len(self.prefix))]
+        return z3.And(*conds) if conds else z3.BoolVal(True)
+
+    def get(self, k):
+        keys = list(self.prefix) + [key_term(k)]
+        if len(keys) == self.depth:
+            return VInt(_sel(self.val, keys))
+        return VMap(self.depth, self.pres, self.val, keys)
+
+    def get_default(self, k, default):
+        keys = list(self.prefix) + [key_term(k)]
+        if len(keys) != self.depth:
+            raise Unsupported(".get on an inner level of a nested dict")
+        return VInt(z3.If(_sel(self.pres[self.depth - 1], keys), _sel(self.val, keys), toint(default)))
+
+    def store(self, k, v):
+        """self[k] = v ; returns the updated view (same prefix)"""
+        keys = list(self.prefix) + [key_term(k)]
+        l = len(keys) - 1
+        pres = list(self.pres)
+        val = self.val
+        if isinstance(v, VMap):
+            if [x.get_id() for x in v.prefix] == [x.get_id() for x in keys]:
+                return VMap(self.depth, v.pres, v.val, self.prefix)       # a view written back into its own slot
+            raise Unsupported("storing a foreign nested dict")
+        if isinstance(v, VRec) and v.cls == "dict" and not v.fields:
+            if len(keys) == self.depth:
+                raise Unsupported("{} stored at leaf level")
+            pres[l] = _upd(pres[l], keys, z3.BoolVal(True))
+            # every deeper entry below this key path disappears
+            empty = z3.K(KeyS, z3.BoolVal(False))
+            pres[l + 1] = _upd(pres[l + 1], keys, empty)
+            return VMap(self.depth, pres, val, self.prefix)
+        if len(keys) == self.depth:
+            pres[l] = _upd(pres[l], keys, z3.BoolVal(True))
+            val = _upd(val, keys, toint(v))
+            return VMap(self.depth, pres, val, self.prefix)
+        raise Unsupported("store of %r into a nested dict" % (v,))
+
+    def root(self):
+        return VMap(self.depth, self.pres, self.val, ())
+
+
 class VFun(V):
     """callable known to the executor (python function over values)"""
     def __init__(self, fn, name="<fn>"):
